@@ -292,6 +292,93 @@ def model_faults(rep):
                                   {"what": "a trail is attached under DISABLE", "faults": combo})
 
 
+def repeated_trails(rep):
+    """trails stay exact over REPEATED failing loads through the same loaders: a model with a flattened layout nested in
+    a list, a dict and another model; one retort per mode; a sequence of inputs, each with one planted bad leaf at a
+    different place; after every load the reported trail, followed from the root of that input, must reach the planted
+    value (nothing of an earlier failure may stick to the loader)."""
+    import copy
+    from dataclasses import dataclass
+    from typing import Dict, List
+
+    from adaptix import DebugTrail, Retort, name_mapping
+    from adaptix.load_error import LoadError
+    from adaptix.struct_trail import get_trail
+
+    @dataclass
+    class Pt:
+        x: int
+        y: int
+        label: str
+
+    @dataclass
+    class Holder:
+        origin: Pt
+        pts: List[Pt]
+        by: Dict[str, Pt]
+
+    recipe = [name_mapping(Pt, map={"x": ("geo", "pos", "x"), "y": ("geo", "y")}),
+              name_mapping(Holder, map={"origin": ("a", "origin")})]
+
+    def pt():
+        return {"geo": {"pos": {"x": 1}, "y": 2}, "label": "l"}
+
+    def holder():
+        return {"a": {"origin": pt()}, "pts": [pt(), pt(), pt()], "by": {"k": pt(), "j": pt()}}
+
+    BAD = "planted-bad-value"
+    plans = [
+        (List[Pt], lambda: [pt(), pt(), pt()], (1, "geo", "pos", "x")),
+        (List[Pt], lambda: [pt(), pt(), pt()], (2, "geo", "y")),
+        (Holder, holder, ("a", "origin", "geo", "y")),
+        (Holder, holder, ("pts", 0, "geo", "pos", "x")),
+        (Dict[str, Pt], lambda: {"k": pt(), "j": pt()}, ("j", "geo", "pos", "x")),
+        (Holder, holder, ("by", "k", "geo", "y")),
+        (List[Pt], lambda: [pt(), pt(), pt()], (0, "geo", "pos", "x")),
+        (Holder, holder, ("a", "origin", "geo", "pos", "x")),
+        (List[List[Pt]], lambda: [[pt()], [pt(), pt()]], (1, 1, "geo", "pos", "x")),
+        (Holder, holder, ("pts", 2, "geo", "y")),
+    ]
+
+    def leaves(e, prefix=()):
+        tr = prefix + tuple(get_trail(e))
+        subs = getattr(e, "exceptions", None)
+        if subs:
+            out = []
+            for s in subs:
+                out += leaves(s, tr)
+            return out
+        return [(tr, e)]
+
+    n = 0
+    for mode in (DebugTrail.FIRST, DebugTrail.ALL):
+        rt = Retort(recipe=recipe, debug_trail=mode)
+        for rnd in range(2):
+            for step_no, (tp, mk, path) in enumerate(plans):
+                data = mk()
+                node = data
+                for k in path[:-1]:
+                    node = node[k]
+                node[path[-1]] = BAD
+                n += 1
+                try:
+                    rt.load(copy.deepcopy(data), tp)
+                    rep.violation(f"repeated-trails:accepted:{mode.name}", "property-violated",
+                                  {"what": "a planted ill-typed leaf is accepted", "input": repr(data), "mode": mode.name})
+                    continue
+                except LoadError as e:
+                    got = leaves(e)
+                trails = [tuple(t) for t, _ in got]
+                if trails != [path]:
+                    rep.violation(f"repeated-trails:{mode.name}", "property-violated",
+                                  {"what": f"load number {rnd * len(plans) + step_no + 1} through one retort: the planted value sits at "
+                                           f"{list(path)} but the reported trail(s) are {[list(t) for t in trails]}",
+                                   "mode": mode.name, "type": repr(tp), "input": repr(data),
+                                   "sequence": "the earlier loads of this sequence failed at other places of the same layout"})
+                    break
+    return n
+
+
 def run(rep, tier, seed):
     from adaptix import load_error as le
     proof = lib.proof_stage(rep, PID)
@@ -320,6 +407,7 @@ def run(rep, tier, seed):
             meta.append((t, v, chosen, bad, expected))
     expected_out, badm = lg.correspond(rep, PID, cases)
     model_faults(rep)
+    repeated_trails(rep)
     # ---- direct oracle on the library
     viol = 0
     for i, (t, v, chosen, bad, expected) in enumerate(meta):
